@@ -70,6 +70,26 @@ Proof.
   - destruct (_ <? _); [|discriminate]. intros [= <-]. reflexivity.
 Qed.
 
+(** An [i128] name that is not a [u128] name and not negative is a spelling of
+    zero ("-0", "-00", ...). *)
+Lemma nonneg_i128_not_u128 : forall s z,
+  parse_u128 s = None -> parse_i128 s = Some z -> (0 <= z)%Z -> z = 0%Z.
+Proof.
+  intros [|c r] z U I0 Hz; [discriminate|].
+  unfold parse_i128 in I0. unfold parse_u128 in U. cbv zeta in *.
+  destruct (c =? 45) eqn:E45.
+  - rewrite Bool.orb_true_r in I0. revert I0.
+    destruct (int_digits_ok r); [|discriminate].
+    destruct (digits_val r <=? 2 ^ 127); [|discriminate].
+    intros [= <-]. lia.
+  - rewrite Bool.orb_false_r in I0. revert I0 U.
+    match goal with |- context [int_digits_ok ?d] => destruct (int_digits_ok d); [|discriminate];
+      destruct (digits_val d <? 2 ^ 127) eqn:L; [|discriminate];
+      destruct (digits_val d <? 2 ^ 128) eqn:L2; [discriminate|] end.
+    apply N.ltb_lt in L. apply N.ltb_ge in L2. exfalso.
+    assert (2 ^ 127 < 2 ^ 128) by (apply N.pow_lt_mono_r; lia). lia.
+Qed.
+
 (** * The comparator through its key *)
 
 Section ArgCmpProofs.
@@ -89,28 +109,41 @@ Notation sort_sb := (sort_sb V vcmp fparse).
 
 (** What the proofs need of the float oracle on a set [P] of names:
     [vcmp] is a total preorder; a name that parses as an integer parses as a
-    float; on two integer names the float comparison agrees with the integer
-    comparison (parsing is exact, or at least order-reflecting, there). *)
+    float; the oracle is monotone on integer names (a smaller integer never
+    gets a greater float: rounding may merge neighbours but never swaps them);
+    an integer that is not zero is not rounded to the float of a zero.
+    A correctly rounding [str::parse::<f64>] satisfies all of this for every
+    name; no exactness is required. *)
 Definition oracle_ok_on (P : bytes -> Prop) : Prop :=
   tpo_on all vcmp /\
   (forall s, P s -> int_val s <> None -> fparse s <> None) /\
   (forall a b x y va vb, P a -> P b ->
      int_val a = Some x -> int_val b = Some y ->
-     fparse a = Some va -> fparse b = Some vb -> vcmp va vb = (x ?= y)%Z).
+     fparse a = Some va -> fparse b = Some vb -> (x <= y)%Z -> vcmp va vb <> Gt) /\
+  (forall a b x va vb, P a -> P b ->
+     int_val a = Some x -> int_val b = Some 0%Z ->
+     fparse a = Some va -> fparse b = Some vb -> vcmp va vb = Eq -> x = 0%Z).
 
-Definition name_key (s : bytes) : V + bytes :=
-  match fparse s with Some v => inl v | None => inr s end.
+(** Key of a number: its float value, then integers before other spellings,
+    then the exact integer value. *)
+Definition num_key : Type := V * (N * Z).
 
-Definition key_cmp : V + bytes -> V + bytes -> comparison := sumcmp vcmp natural_cmp.
+Definition num_key_of (s : bytes) (v : V) : num_key :=
+  (v, match int_val s with Some z => (0, z) | None => (1, 0%Z) end).
+
+Definition num_key_cmp : num_key -> num_key -> comparison :=
+  thenc (fun a b => vcmp (fst a) (fst b))
+        (thenc (fun a b => fst (snd a) ?= fst (snd b))
+               (fun a b => (snd (snd a) ?= snd (snd b))%Z)).
+
+Definition name_key (s : bytes) : num_key + bytes :=
+  match fparse s with Some v => inl (num_key_of s v) | None => inr s end.
+
+Definition key_cmp : num_key + bytes -> num_key + bytes -> comparison :=
+  sumcmp num_key_cmp natural_cmp.
 
 Variable P : bytes -> Prop.
 Hypothesis OK : oracle_ok_on P.
-
-Lemma float_cmp_key : forall a b, float_cmp a b = key_cmp (name_key a) (name_key b).
-Proof.
-  intros a b. unfold float_cmp, key_cmp, name_key.
-  destruct (fparse a), (fparse b); reflexivity.
-Qed.
 
 Lemma neg_i128_spec : forall s, neg_i128 s = true ->
   exists z, parse_i128 s = Some z /\ (z < 0)%Z.
@@ -119,55 +152,140 @@ Proof.
   exists z. split; [reflexivity|]. apply Z.ltb_lt. exact H.
 Qed.
 
-(** The whole [Name] arm is "compare the keys": numbers first by value, then
-    the other names in natural order. *)
-Lemma name_cmp_key : forall a b, P a -> P b ->
-  name_cmp a b = key_cmp (name_key a) (name_key b).
+Lemma is_int_int_val : forall s, is_int s = match int_val s with Some _ => true | None => false end.
 Proof.
-  intros a b Pa Pb. destruct OK as (Tv & Hnum & Hex).
-  unfold ArgCmp.name_cmp.
+  intros s. unfold is_int, int_val. destruct (parse_u128 s); [reflexivity|].
+  destruct (parse_i128 s); reflexivity.
+Qed.
+
+(** The specification's comparison of names is the comparison of the keys. *)
+Lemma spec_name_cmp_key : forall a b,
+  spec_name_cmp a b = key_cmp (name_key a) (name_key b).
+Proof.
+  intros a b. unfold ArgCmp.spec_name_cmp, key_cmp, name_key.
+  destruct (fparse a) as [x|], (fparse b) as [y|]; try reflexivity.
+  - simpl. unfold num_key_cmp, thenc, num_key_of. simpl.
+    destruct (vcmp x y); try reflexivity.
+    destruct (int_val a), (int_val b); reflexivity.
+  - simpl. unfold natural_spec. symmetry. apply natural_cmp_key.
+Qed.
+
+(** Monotone oracle: consequences for two integer names. *)
+Lemma ints_cmp_consistent : forall a b x y va vb, P a -> P b ->
+  int_val a = Some x -> int_val b = Some y -> fparse a = Some va -> fparse b = Some vb ->
+  (x ?= y)%Z = match vcmp va vb with Eq => (x ?= y)%Z | o => o end.
+Proof.
+  intros a b x y va vb Pa Pb Ia Ib Fa Fb. destruct OK as (Tv & _ & Hmono & _).
+  destruct (vcmp va vb) eqn:E; [reflexivity| |].
+  - (* Lt: then not y <= x ... *)
+    apply Z.compare_lt_iff. destruct (Z.lt_ge_cases x y) as [H|H]; [exact H|].
+    exfalso. apply (Hmono b a y x vb va Pb Pa Ib Ia Fb Fa H).
+    rewrite (tpo_anti all vcmp Tv va vb I I), E. reflexivity.
+  - apply Z.compare_gt_iff. destruct (Z.lt_ge_cases y x) as [H|H]; [exact H|].
+    exfalso. apply (Hmono a b x y va vb Pa Pb Ia Ib Fa Fb H). exact E.
+Qed.
+
+(** The whole [Name] arm answers what the specification says. *)
+Lemma name_cmp_spec : forall a b, P a -> P b -> name_cmp a b = spec_name_cmp a b.
+Proof.
+  intros a b Pa Pb. pose proof OK as (Tv & Hnum & Hmono & Hzero).
+  unfold ArgCmp.name_cmp, ArgCmp.spec_name_cmp.
   destruct (parse_u128 a) as [x|] eqn:Ua; destruct (parse_u128 b) as [y|] eqn:Ub.
   - (* both u128 *)
     assert (Ia : int_val a = Some (Z.of_N x)) by (unfold int_val; rewrite Ua; reflexivity).
     assert (Ib : int_val b = Some (Z.of_N y)) by (unfold int_val; rewrite Ub; reflexivity).
-    unfold key_cmp, name_key.
     destruct (fparse a) as [va|] eqn:Fa; [|exfalso; apply (Hnum a Pa); congruence].
     destruct (fparse b) as [vb|] eqn:Fb; [|exfalso; apply (Hnum b Pb); congruence].
-    simpl. rewrite (Hex a b _ _ va vb Pa Pb Ia Ib Fa Fb). symmetry. apply N2Z.inj_compare.
+    rewrite Ia, Ib. rewrite <- N2Z.inj_compare.
+    apply (ints_cmp_consistent a b _ _ va vb Pa Pb Ia Ib Fa Fb).
   - (* a u128, b not *)
-    destruct (neg_i128 b) eqn:Nb; [|apply float_cmp_key].
-    apply neg_i128_spec in Nb. destruct Nb as (z & Ib' & Hz).
-    assert (Ia : int_val a = Some (Z.of_N x)) by (unfold int_val; rewrite Ua; reflexivity).
-    assert (Ib : int_val b = Some z) by (unfold int_val; rewrite Ub; exact Ib').
-    unfold key_cmp, name_key.
-    destruct (fparse a) as [va|] eqn:Fa; [|exfalso; apply (Hnum a Pa); congruence].
-    destruct (fparse b) as [vb|] eqn:Fb; [|exfalso; apply (Hnum b Pb); congruence].
-    simpl. rewrite (Hex a b _ _ va vb Pa Pb Ia Ib Fa Fb). symmetry. apply Z.compare_gt_iff. lia.
+    destruct (neg_i128 b) eqn:Nb.
+    + apply neg_i128_spec in Nb. destruct Nb as (z & Ib' & Hz).
+      assert (Ia : int_val a = Some (Z.of_N x)) by (unfold int_val; rewrite Ua; reflexivity).
+      assert (Ib : int_val b = Some z) by (unfold int_val; rewrite Ub; exact Ib').
+      destruct (fparse a) as [va|] eqn:Fa; [|exfalso; apply (Hnum a Pa); congruence].
+      destruct (fparse b) as [vb|] eqn:Fb; [|exfalso; apply (Hnum b Pb); congruence].
+      rewrite Ia, Ib.
+      rewrite <- (ints_cmp_consistent a b _ _ va vb Pa Pb Ia Ib Fa Fb).
+      symmetry. apply Z.compare_gt_iff. lia.
+    + unfold ArgCmp.float_cmp.
+      assert (Ia : int_val a = Some (Z.of_N x)) by (unfold int_val; rewrite Ua; reflexivity).
+      destruct (fparse a) as [va|] eqn:Fa; [|exfalso; apply (Hnum a Pa); congruence].
+      destruct (fparse b) as [vb|] eqn:Fb; [|reflexivity].
+      destruct (vcmp va vb) eqn:E; try reflexivity.
+      rewrite !is_int_int_val, Ia.
+      destruct (int_val b) as [z|] eqn:Ib; [|reflexivity].
+      (* b is an integer, not u128, not negative: its value is 0 *)
+      assert (z = 0%Z) as ->.
+      { unfold int_val in Ib. rewrite Ub in Ib. unfold neg_i128 in Nb. rewrite Ib in Nb.
+        apply Z.ltb_ge in Nb. eapply nonneg_i128_not_u128; eauto. }
+      simpl.
+      assert (Hx : Z.of_N x = 0%Z) by (eapply (Hzero a b); eauto).
+      rewrite Hx. reflexivity.
   - (* b u128, a not *)
-    destruct (neg_i128 a) eqn:Na; [|apply float_cmp_key].
-    apply neg_i128_spec in Na. destruct Na as (z & Ia' & Hz).
-    assert (Ia : int_val a = Some z) by (unfold int_val; rewrite Ua; exact Ia').
-    assert (Ib : int_val b = Some (Z.of_N y)) by (unfold int_val; rewrite Ub; reflexivity).
-    unfold key_cmp, name_key.
-    destruct (fparse a) as [va|] eqn:Fa; [|exfalso; apply (Hnum a Pa); congruence].
-    destruct (fparse b) as [vb|] eqn:Fb; [|exfalso; apply (Hnum b Pb); congruence].
-    simpl. rewrite (Hex a b _ _ va vb Pa Pb Ia Ib Fa Fb). symmetry. apply Z.compare_lt_iff. lia.
+    destruct (neg_i128 a) eqn:Na.
+    + apply neg_i128_spec in Na. destruct Na as (z & Ia' & Hz).
+      assert (Ia : int_val a = Some z) by (unfold int_val; rewrite Ua; exact Ia').
+      assert (Ib : int_val b = Some (Z.of_N y)) by (unfold int_val; rewrite Ub; reflexivity).
+      destruct (fparse a) as [va|] eqn:Fa; [|exfalso; apply (Hnum a Pa); congruence].
+      destruct (fparse b) as [vb|] eqn:Fb; [|exfalso; apply (Hnum b Pb); congruence].
+      rewrite Ia, Ib.
+      rewrite <- (ints_cmp_consistent a b _ _ va vb Pa Pb Ia Ib Fa Fb).
+      symmetry. apply Z.compare_lt_iff. lia.
+    + unfold ArgCmp.float_cmp.
+      assert (Ib : int_val b = Some (Z.of_N y)) by (unfold int_val; rewrite Ub; reflexivity).
+      destruct (fparse b) as [vb|] eqn:Fb; [|exfalso; apply (Hnum b Pb); congruence].
+      destruct (fparse a) as [va|] eqn:Fa; [|reflexivity].
+      destruct (vcmp va vb) eqn:E; try reflexivity.
+      rewrite !is_int_int_val, Ib.
+      destruct (int_val a) as [z|] eqn:Ia; [|reflexivity].
+      assert (z = 0%Z) as ->.
+      { unfold int_val in Ia. rewrite Ua in Ia. unfold neg_i128 in Na. rewrite Ia in Na.
+        apply Z.ltb_ge in Na. eapply nonneg_i128_not_u128; eauto. }
+      simpl.
+      assert (Hy : Z.of_N y = 0%Z).
+      { eapply (Hzero b a); eauto. rewrite (tpo_anti all vcmp Tv va vb I I), E. reflexivity. }
+      rewrite Hy. reflexivity.
   - (* neither u128 *)
-    destruct (parse_i128 a) as [x|] eqn:Ia'; [|apply float_cmp_key].
-    destruct (parse_i128 b) as [y|] eqn:Ib'; [|apply float_cmp_key].
-    assert (Ia : int_val a = Some x) by (unfold int_val; rewrite Ua; exact Ia').
-    assert (Ib : int_val b = Some y) by (unfold int_val; rewrite Ub; exact Ib').
-    unfold key_cmp, name_key.
-    destruct (fparse a) as [va|] eqn:Fa; [|exfalso; apply (Hnum a Pa); congruence].
-    destruct (fparse b) as [vb|] eqn:Fb; [|exfalso; apply (Hnum b Pb); congruence].
-    simpl. rewrite (Hex a b _ _ va vb Pa Pb Ia Ib Fa Fb). reflexivity.
+    destruct (parse_i128 a) as [x|] eqn:Ia'; destruct (parse_i128 b) as [y|] eqn:Ib'.
+    + assert (Ia : int_val a = Some x) by (unfold int_val; rewrite Ua; exact Ia').
+      assert (Ib : int_val b = Some y) by (unfold int_val; rewrite Ub; exact Ib').
+      destruct (fparse a) as [va|] eqn:Fa; [|exfalso; apply (Hnum a Pa); congruence].
+      destruct (fparse b) as [vb|] eqn:Fb; [|exfalso; apply (Hnum b Pb); congruence].
+      rewrite Ia, Ib. apply (ints_cmp_consistent a b _ _ va vb Pa Pb Ia Ib Fa Fb).
+    + unfold ArgCmp.float_cmp.
+      assert (Ia : int_val a = Some x) by (unfold int_val; rewrite Ua; exact Ia').
+      assert (Ib : int_val b = None) by (unfold int_val; rewrite Ub; exact Ib').
+      rewrite !is_int_int_val, Ia, Ib.
+      destruct (fparse a); destruct (fparse b); try reflexivity; apply natural_cmp_key.
+    + unfold ArgCmp.float_cmp.
+      assert (Ia : int_val a = None) by (unfold int_val; rewrite Ua; exact Ia').
+      assert (Ib : int_val b = Some y) by (unfold int_val; rewrite Ub; exact Ib').
+      rewrite !is_int_int_val, Ia, Ib.
+      destruct (fparse a); destruct (fparse b); try reflexivity; apply natural_cmp_key.
+    + unfold ArgCmp.float_cmp.
+      assert (Ia : int_val a = None) by (unfold int_val; rewrite Ua; exact Ia').
+      assert (Ib : int_val b = None) by (unfold int_val; rewrite Ub; exact Ib').
+      rewrite !is_int_int_val, Ia, Ib.
+      destruct (fparse a); destruct (fparse b); try reflexivity; try apply natural_cmp_key.
+Qed.
+
+Lemma name_cmp_key : forall a b, P a -> P b ->
+  name_cmp a b = key_cmp (name_key a) (name_key b).
+Proof. intros. rewrite name_cmp_spec by assumption. apply spec_name_cmp_key. Qed.
+
+Lemma tpo_num_key_cmp : tpo_on all num_key_cmp.
+Proof.
+  destruct OK as (Tv & _). unfold num_key_cmp. apply tpo_thenc; [|apply tpo_thenc].
+  - apply (tpo_pull all all (fun a : num_key => fst a) vcmp); [intros; exact I|exact Tv].
+  - apply (tpo_pull all all (fun a : num_key => fst (snd a)) N.compare); [intros; exact I|exact tpo_N].
+  - apply (tpo_pull all all (fun a : num_key => snd (snd a)) Z.compare); [intros; exact I|exact tpo_Z].
 Qed.
 
 Lemma tpo_key_cmp : tpo_on all key_cmp.
 Proof.
-  destruct OK as (Tv & _).
   apply (tpo_weaken all (sumP all all)); [intros [x|x] _; exact I|].
-  apply tpo_sum; [exact Tv|exact tpo_natural_cmp].
+  apply tpo_sum; [exact tpo_num_key_cmp|exact tpo_natural_cmp].
 Qed.
 
 Lemma tpo_name_cmp : tpo_on P name_cmp.
@@ -177,38 +295,36 @@ Proof.
   - apply (tpo_pull P all name_key key_cmp); [intros; exact I|exact tpo_key_cmp].
 Qed.
 
-(** The specification's comparison of names is the same function of the keys. *)
-Lemma spec_name_cmp_key : forall a b,
-  spec_name_cmp a b = key_cmp (name_key a) (name_key b).
-Proof.
-  intros a b. unfold ArgCmp.spec_name_cmp, key_cmp, name_key.
-  destruct (fparse a), (fparse b); try reflexivity.
-  simpl. unfold natural_spec. symmetry. apply natural_cmp_key.
-Qed.
-
-Lemma name_cmp_spec : forall a b, P a -> P b -> name_cmp a b = spec_name_cmp a b.
-Proof. intros. rewrite name_cmp_key, spec_name_cmp_key by assumption. reflexivity. Qed.
-
-(** Two numeric names compare by value. *)
+(** Two numeric names compare by value; at equal value integers come first
+    (two integers by their exact value), other spellings tie. *)
 Lemma name_cmp_numeric : forall a b x y, P a -> P b ->
-  fparse a = Some x -> fparse b = Some y -> name_cmp a b = vcmp x y.
+  fparse a = Some x -> fparse b = Some y ->
+  name_cmp a b = match vcmp x y with
+                 | Eq => match int_val a, int_val b with
+                         | Some p, Some q => (p ?= q)%Z
+                         | Some _, None => Lt
+                         | None, Some _ => Gt
+                         | None, None => Eq
+                         end
+                 | o => o
+                 end.
 Proof.
-  intros a b x y Pa Pb Fa Fb. rewrite name_cmp_key by assumption.
-  unfold key_cmp, name_key. rewrite Fa, Fb. reflexivity.
+  intros a b x y Pa Pb Fa Fb. rewrite name_cmp_spec by assumption.
+  unfold ArgCmp.spec_name_cmp. rewrite Fa, Fb. reflexivity.
 Qed.
 
 Lemma name_cmp_number_first : forall a b x, P a -> P b ->
   fparse a = Some x -> fparse b = None -> name_cmp a b = Lt /\ name_cmp b a = Gt.
 Proof.
-  intros a b x Pa Pb Fa Fb. rewrite !name_cmp_key by assumption.
-  unfold key_cmp, name_key. rewrite Fa, Fb. split; reflexivity.
+  intros a b x Pa Pb Fa Fb. rewrite !name_cmp_spec by assumption.
+  unfold ArgCmp.spec_name_cmp. rewrite Fa, Fb. split; reflexivity.
 Qed.
 
 Lemma name_cmp_natural : forall a b, P a -> P b ->
   fparse a = None -> fparse b = None -> name_cmp a b = natural_cmp a b.
 Proof.
-  intros a b Pa Pb Fa Fb. rewrite name_cmp_key by assumption.
-  unfold key_cmp, name_key. rewrite Fa, Fb. reflexivity.
+  intros a b Pa Pb Fa Fb. rewrite name_cmp_spec by assumption.
+  unfold ArgCmp.spec_name_cmp. rewrite Fa, Fb. unfold natural_spec. symmetry. apply natural_cmp_key.
 Qed.
 
 (** * The full comparator on (position, name) *)
@@ -429,21 +545,27 @@ Qed.
 
 Lemma oracle_dec_ok : forall P, oracle_ok_on fval fval_cmp dec_parse P.
 Proof.
-  intros P. split; [exact tpo_fval_cmp|split].
+  intros P. split; [exact tpo_fval_cmp|split; [|split]].
   - intros s _ H. destruct (int_val s) as [z|] eqn:E; [|congruence].
     rewrite (dec_parse_int s z E). discriminate.
-  - intros a b x y va vb _ _ Ia Ib Fa Fb.
+  - intros a b x y va vb _ _ Ia Ib Fa Fb Hle.
     rewrite (dec_parse_int a x Ia) in Fa. rewrite (dec_parse_int b y Ib) in Fb.
     injection Fa as <-. injection Fb as <-. simpl. unfold Qcompare. simpl.
-    rewrite !Z.mul_1_r. reflexivity.
+    rewrite !Z.mul_1_r. apply Z.compare_le_iff. exact Hle.
+  - intros a b x va vb _ _ Ia Ib Fa Fb E.
+    rewrite (dec_parse_int a x Ia) in Fa. rewrite (dec_parse_int b 0%Z Ib) in Fb.
+    injection Fa as <-. injection Fb as <-. simpl in E. unfold Qcompare in E. simpl in E.
+    rewrite !Z.mul_1_r in E. apply Z.compare_eq in E. exact E.
 Qed.
 
-(** * The hypothesis on the oracle is needed: a rounding oracle breaks the order
+(** * A rounding oracle (like f64 beyond 2^53)
 
-    An oracle that, like [f64], maps 2^53, 2^53+1 and "9007199254740992.0" to
-    the same value satisfies everything except exactness on integers, and the
-    comparator is then not a preorder on these three names: the two integers
-    are ordered exactly, but both are [Equal] to the decimal. *)
+    An oracle that maps 2^53, 2^53+1 and "9007199254740992.0" to one value is
+    monotone but not exact.  The comparator as it was before commit 6cb0c72
+    (float-[Equal] names simply tie) is then not a preorder on these three
+    names: the integers are ordered exactly, yet both tie with the decimal (the
+    real crate panicked in [sort_by] on 21 such names).  The comparator as it is
+    now orders them: 2^53 < 2^53+1 < "9007199254740992.0". *)
 Definition n_2p53 : bytes := [57;48;48;55;49;57;57;50;53;52;55;52;48;57;57;50].
 Definition n_2p53_1 : bytes := [57;48;48;55;49;57;57;50;53;52;55;52;48;57;57;51].
 Definition n_2p53_dot0 : bytes := n_2p53 ++ [46; 48].
@@ -452,11 +574,51 @@ Definition rounding_oracle (s : bytes) : option Z :=
   if bytes_eqb s n_2p53 || bytes_eqb s n_2p53_1 || bytes_eqb s n_2p53_dot0
   then Some (2 ^ 53)%Z else None.
 
-Lemma rounding_oracle_breaks_preorder :
-  name_cmp Z Z.compare rounding_oracle n_2p53 n_2p53_1 = Lt /\
-  name_cmp Z Z.compare rounding_oracle n_2p53 n_2p53_dot0 = Eq /\
-  name_cmp Z Z.compare rounding_oracle n_2p53_1 n_2p53_dot0 = Eq.
+(** [cmp_bench_arg_names]' [Name] arm before 6cb0c72. *)
+Definition old_float_cmp {V} (vcmp : V -> V -> comparison) (fparse : bytes -> option V) (a b : bytes) : comparison :=
+  match fparse a, fparse b with
+  | Some x, Some y => vcmp x y
+  | Some _, None => Lt
+  | None, Some _ => Gt
+  | None, None => natural_cmp a b
+  end.
+
+Definition old_name_cmp {V} (vcmp : V -> V -> comparison) (fparse : bytes -> option V) (a b : bytes) : comparison :=
+  match parse_u128 a, parse_u128 b with
+  | Some x, Some y => x ?= y
+  | Some _, None => if neg_i128 b then Gt else old_float_cmp vcmp fparse a b
+  | None, Some _ => if neg_i128 a then Lt else old_float_cmp vcmp fparse a b
+  | None, None =>
+      match parse_i128 a, parse_i128 b with
+      | Some x, Some y => (x ?= y)%Z
+      | _, _ => old_float_cmp vcmp fparse a b
+      end
+  end.
+
+Example rounding_oracle_broke_old_comparator :
+  old_name_cmp Z.compare rounding_oracle n_2p53 n_2p53_1 = Lt /\
+  old_name_cmp Z.compare rounding_oracle n_2p53 n_2p53_dot0 = Eq /\
+  old_name_cmp Z.compare rounding_oracle n_2p53_1 n_2p53_dot0 = Eq.
 Proof. vm_compute. repeat split. Qed.
+
+Example rounding_oracle_new_comparator :
+  name_cmp Z Z.compare rounding_oracle n_2p53 n_2p53_1 = Lt /\
+  name_cmp Z Z.compare rounding_oracle n_2p53 n_2p53_dot0 = Lt /\
+  name_cmp Z Z.compare rounding_oracle n_2p53_1 n_2p53_dot0 = Lt.
+Proof. vm_compute. repeat split. Qed.
+
+(** The rounding oracle satisfies the hypotheses on these names (it is not
+    exact, only monotone): the theorems apply to it. *)
+Example rounding_oracle_ok :
+  oracle_ok_on Z Z.compare rounding_oracle (fun s => In s [n_2p53; n_2p53_1; n_2p53_dot0]).
+Proof.
+  split; [exact tpo_Z|split; [|split]].
+  - intros s [<-|[<-|[<-|[]]]] _; vm_compute; discriminate.
+  - intros a b x y va vb [<-|[<-|[<-|[]]]] [<-|[<-|[<-|[]]]]; vm_compute;
+      intros Ia Ib Fa Fb; try discriminate; injection Fa as <-; injection Fb as <-; intros _; discriminate.
+  - intros a b x va vb [<-|[<-|[<-|[]]]] [<-|[<-|[<-|[]]]]; vm_compute;
+      intros Ia Ib; discriminate.
+Qed.
 
 (** * Statements in the shape used by Properties/C16.v *)
 
@@ -480,7 +642,16 @@ Lemma argcmp_numeric : forall V vcmp fparse (P : bytes -> Prop),
   oracle_ok_on V vcmp fparse P ->
   forall a b, P a -> P b ->
   (forall x y, fparse a = Some x -> fparse b = Some y ->
-     name_cmp V vcmp fparse a b = vcmp x y) /\
+     name_cmp V vcmp fparse a b =
+     match vcmp x y with
+     | Eq => match int_val a, int_val b with
+             | Some p, Some q => (p ?= q)%Z
+             | Some _, None => Lt
+             | None, Some _ => Gt
+             | None, None => Eq
+             end
+     | o => o
+     end) /\
   (forall x, fparse a = Some x -> fparse b = None ->
      name_cmp V vcmp fparse a b = Lt /\ name_cmp V vcmp fparse b a = Gt) /\
   (fparse a = None -> fparse b = None ->
